@@ -68,7 +68,7 @@ FLOORS = {
                    "macro.additivity": 300, "macro.creator": 60, "macro.derived": 60, "macro.totalscatter": 100, "macro.energy": 60,
                    "macro.empty": 20, "fixture.order": 100, "fixture.conflict": 4, "fixture.macro": 12,
                    "merge.chi-flag-after-file-wide-chi-removal": 150, "macro.creator-gamma": 150, "macro.derived-gamma": 150, "macro.creator-missing": 150, "macro.creator-nucnames": 80,
-                   "macro.multlib": 250, "macro.energy-missing": 300,
+                   "macro.multlib": 250, "macro.energy-missing": 300, "merge.questions-between-merges": 1500, "merge.views": 1200,
                    "compxs.order": 30, "compxs.region-identity": 250, "compxs.library-level": 30, "compxs.order-independence": 25,
                    "compxs.conflict.refused/group-structure": 45, "compxs.unchanged-check": 60},
                   **{"conflict.refused/%s" % k: 10 for k in _KINDS_FLOOR}),
@@ -77,7 +77,7 @@ FLOORS = {
                       "macro.additivity": 6000, "macro.creator": 1200, "macro.derived": 1200, "macro.totalscatter": 2000, "macro.energy": 1200,
                       "macro.empty": 400, "fixture.order": 170, "fixture.conflict": 4, "fixture.macro": 100,
                       "merge.chi-flag-after-file-wide-chi-removal": 3000, "macro.creator-gamma": 3000, "macro.derived-gamma": 3000, "macro.creator-missing": 3000, "macro.creator-nucnames": 1500,
-                      "macro.multlib": 5000, "macro.energy-missing": 6000,
+                      "macro.multlib": 5000, "macro.energy-missing": 6000, "merge.questions-between-merges": 30000, "merge.views": 24000,
                       "compxs.order": 1200, "compxs.region-identity": 10000, "compxs.library-level": 1200, "compxs.order-independence": 1000,
                       "compxs.conflict.refused/group-structure": 900, "compxs.unchanged-check": 1200},
                      **{"conflict.refused/%s" % k: 200 for k in _KINDS_FLOOR}),
@@ -630,6 +630,21 @@ def check_merged(rec, merged, sources, witness, tag="merge"):
     if got != union or len(om["labels"]) != len(got) or set(om["dictLabels"]) != got or len(merged) != len(union):
         rec.violation("merge/label-set-not-union", "merged labels %s, union of sources %s (ordered list has %d entries, dict %d)" % (
             sorted(got ^ union), len(union), len(om["labels"]), len(om["dictLabels"])), witness)
+    # the public views of the nuclide set agree with the label set: getNuclides('') lists every nuclide once, getNuclides(suffix)
+    # exactly those whose label carries the suffix, nuclides/nuclideLabels the same objects in label order
+    try:
+        rec.hit(tag + ".views")
+        allN = merged.getNuclides("")
+        if sorted(id(n) for n in allN) != sorted(id(merged[l]) for l in om["labels"]) and len(set(om["labels"])) == len(om["labels"]):
+            rec.violation("merge/getNuclides-not-the-label-set", "getNuclides('') returns %d nuclides, the library holds %d labels" % (len(allN), len(om["labels"])), witness)
+        for sfx in sorted({l[-2:] for l in om["labels"]}):
+            wantS = sorted(id(merged[l]) for l in om["labels"] if l.endswith(sfx))
+            gotS = sorted(id(n) for n in merged.getNuclides(sfx))
+            if gotS != wantS:
+                rec.violation("merge/getNuclides-not-the-label-set", "getNuclides(%r) returns %d nuclides, %d labels end in it" % (sfx, len(gotS), len(wantS)), witness)
+                break
+    except Exception as e:
+        rec.crash("merge-views", e, witness)
     # chi bookkeeping documented by NuclideXSMetadata._getSkippedKeys: with >= 2 ISOTXS metadata and a file-wide chi, the
     # file-wide vector is dropped and fissile nuclides get chiFlag=1 (their micros.chi already is that vector)
     chiRule = {}
@@ -752,6 +767,24 @@ def report_legal_merge_failure(rec, e, sources, w, where):
         rec.crash(where, e, w)
 
 
+def ask_between_merges(rec, lib):
+    """Read-only questions to a library that is still being assembled (a caller inspecting it between two merges): what they
+    answered then must not be what they answer after the next merge."""
+    rec.hit("merge.questions-between-merges")
+    try:
+        labels = list(lib.nuclideLabels)
+        lib.getNuclides("")
+        for sfx in sorted({l[-2:] for l in labels})[:3] + ["ZZ"]:
+            lib.getNuclides(sfx)
+        list(lib.nuclides)
+        len(lib)
+        list(lib.xsIDs)
+        if labels:
+            lib.getNuclide(labels[0][:-2], labels[0][-2:])
+    except Exception:
+        pass
+
+
 def run_orders(rec, sources, witness, sig, perms, hitname="merge.order", sampleFirst=False):
     """Merge the set in every given order and judge each result and their mutual equality."""
     from armi.nuclearDataIO import xsLibraries
@@ -769,6 +802,8 @@ def run_orders(rec, sources, witness, sig, perms, hitname="merge.order", sampleF
                     target = sources[perm[0]].fresh()
                     rest = perm[1:]
                 for j in rest:
+                    if pi % 3 == 1:
+                        ask_between_merges(rec, target)
                     target.merge(sources[j].fresh())
             except Exception as e:  # a legal set must merge
                 report_legal_merge_failure(rec, e, sources, w, "merge-legal-set")
@@ -1482,6 +1517,8 @@ def do_macro(spec, rec):
         try:
             lib = xsLibraries.IsotxsLibrary()
             for j in order:
+                if i % 3 == 1:
+                    ask_between_merges(rec, lib)
                 lib.merge(sources[j].fresh())
         except Exception as e:
             report_legal_merge_failure(rec, e, sources, witness, "macro-setup-merge")
